@@ -171,6 +171,29 @@ CHECKS: dict[str, dict] = {
         technique="TLA+ model checked by TLC + exhaustive crash-point / fault enumeration on real directories + TLC trace validation",
         ref="5-C10",
     ),
+    "C11": dict(
+        engine="spec/Selection.tla, spec/SelectionTrace.tla (+ generated SelectionRun.tla)",
+        text="Selection.tla defines Contributes(path, exclusions) (hidden rule, built-in exclusions, the five unambiguous gitignore pattern classes, supported "
+             "extensions) and TLC enumerates the configurations (lists of <= 2 patterns x source of each pattern: config file / --exclude option / root "
+             ".gitignore x root given relative / absolute / with '..') with the ghost set of contributing paths over a complete universe tree (all paths of "
+             "depth <= 2 over 7 directory names x 14 file names: 657 files). Every single-pattern configuration and a seeded sample of two-pattern ones is run "
+             "through the real `scan` entry point on that tree; analysed set, keys, language and checksum are compared; random sub-trees check that files do "
+             "not influence each other; TLC judges recorded scans path by path (SelectionTrace.tla).",
+        note="The pattern classes' reading is cross-checked against pathspec on the universe at run time; supported extensions are read off Pygments. " + BASE_NOTE,
+        technique="TLC-enumerated configurations with ghost oracle over a complete path universe, replayed through the real scan + TLC trace acceptance",
+        ref="5-C11",
+    ),
+    "C12": dict(
+        engine="spec/Selection.tla, spec/SelectionTrace.tla (+ generated SelectionRun.tla)",
+        text="Over the same universe tree (supported files hold functions of 10 / 31 / 61 lines, malformed text or Latin-1 bytes) TLC enumerates exclusion list x "
+             "source x class of check target (root as '.' or absolute, directories of depth 1 / 2 relative and absolute, files by relative path); the harness "
+             "expands each class to all its members and runs check_command from the codebase root; TLC judges every run (SelectionTrace.tla): the files check "
+             "looks at are exactly the contributing files beneath the target, excluded never, hidden never below a directory, and what it lists for each file "
+             "is exactly what scan measures above 30 lines (names, positions, lengths, decoding).",
+        note="Files looked at are observed by wrapping CheckResult.add from the harness; configurations are sampled, targets exhaustive for the sampled configurations. " + BASE_NOTE,
+        technique="TLC-enumerated configurations and targets replayed through the real check + TLC trace acceptance against scan",
+        ref="5-C12",
+    ),
 }
 
 NOT_YET = "check not built yet in this round (see DESIGN.md section 10 for the order of work)"
